@@ -71,6 +71,18 @@ pub fn qpts2(q: &mut Q, pts: &[Point2], s: f64) -> Vec<Vec<i64>> {
 pub fn qpts3(q: &mut Q, pts: &[Point3], s: f64) -> Vec<Vec<i64>> {
     pts.iter().map(|p| vec![q.q(p.x / s, QP), q.q(p.y / s, QP), q.q(p.z / s, QP)]).collect()
 }
+pub const QC: f64 = 640.0;
+/// projection of a curve used as a portion result: vertices (1/640 lattice unit), length, closedness
+pub fn piece(q: &mut Q, c: &Curve2, s: f64) -> Value {
+    let verts: Vec<Vec<i64>> = c.points().iter().map(|p| vec![q.q(p.x / s, QC), q.q(p.y / s, QC), 0]).collect();
+    json!({"some": true, "verts": verts, "len": q.q(c.length() / s, QC), "closed": c.is_closed(), "n": c.count()})
+}
+pub fn opt_piece(q: &mut Q, c: &Option<Curve2>, s: f64) -> Value {
+    match c {
+        None => json!({"some": false}),
+        Some(c) => { let mut o = piece(q, c, s); o["some"] = json!(true); o }
+    }
+}
 fn lval(l2: i64, e: i64, s: f64) -> f64 {
     nudge(l2 as f64 / 2.0 * s, e)
 }
@@ -109,6 +121,52 @@ pub fn exec(rec: &Value, st: &mut State) -> Value {
                        "q": qs, "qf": qf, "it": it, "front": front, "back": back, "finite": q.finite})
             }
         }
-        _ => { let _ = st; json!({"unknown_op": true}) }
+        // ---------------- C04: history of portioning operations on a current Curve2
+        "root" => {
+            let (s, c) = build2(rec);
+            match c {
+                Ok(c) => {
+                    let o = piece(&mut q, &c, s);
+                    st.slots.insert("cur".into(), Box::new((c, s)));
+                    json!({"ok": true, "piece": o, "finite": q.finite})
+                }
+                Err(_) => json!({"ok": false}),
+            }
+        }
+        "between" | "bycontrol" | "trim_front" | "trim_back" | "reversed" | "split_open" | "split_closed" => {
+            let (cur, s) = match st.slots.get("cur").and_then(|b| b.downcast_ref::<(Curve2, f64)>()) {
+                Some(x) => (x.0.clone(), x.1),
+                None => return json!({"no_current": true}),
+            };
+            let lv = |key: &str| -> f64 {
+                let v = gvi(rec, key);
+                if v[1] == 1 { cur.length() - v[0] as f64 / 2.0 * s } else { v[0] as f64 / 2.0 * s }
+            };
+            let mut next: Option<Curve2> = None;
+            let out = match op {
+                "between" => { let r = cur.between_lengths(lv("l0"), lv("l1")); let o = opt_piece(&mut q, &r, s); next = r; o }
+                "bycontrol" => { let r = cur.between_lengths_by_control(lv("a"), lv("b"), lv("c")); let o = opt_piece(&mut q, &r, s); next = r; o }
+                "trim_front" => { let x = { let v = gvi(rec, "x"); if v[1] == 1 { cur.length() - v[0] as f64 / 2.0 * s } else { v[0] as f64 / 2.0 * s } }; let r = cur.trim_front(x); let o = opt_piece(&mut q, &r, s); next = r; o }
+                "trim_back" => { let x = lv("x"); let r = cur.trim_back(x); let o = opt_piece(&mut q, &r, s); next = r; o }
+                "reversed" => { let r = Some(cur.reversed()); let o = opt_piece(&mut q, &r, s); next = r; o }
+                "split_open" => {
+                    match cur.split_open_at_length(lv("l")) {
+                        Ok((a, b)) => { let o = json!({"some": true, "a": piece(&mut q, &a, s), "b": piece(&mut q, &b, s)}); next = Some(if gi(rec, "keep") == 1 { a } else { b }); o }
+                        Err(_) => json!({"some": false}),
+                    }
+                }
+                _ => {
+                    match cur.split_closed_at_lengths(lv("l0"), lv("l1")) {
+                        Ok((a, b)) => { let o = json!({"some": true, "a": piece(&mut q, &a, s), "b": piece(&mut q, &b, s)}); next = Some(if gi(rec, "keep") == 1 { a } else { b }); o }
+                        Err(_) => json!({"some": false}),
+                    }
+                }
+            };
+            if let Some(n) = next {
+                st.slots.insert("cur".into(), Box::new((n, s)));
+            }
+            json!({"r": out, "finite": q.finite})
+        }
+        _ => json!({"unknown_op": true}),
     }
 }
